@@ -41,6 +41,12 @@ def run(tier='quick', only=None):
                 continue
             env = dict(os.environ, VERIF_REPO=scratch, VERIF_EVIDENCE_DIR=os.path.join(scratch, 'evidence'))
             r = subprocess.run([os.path.join(VERIF, 'vcheck'), pid, '--tier', tier], env=env, capture_output=True, text=True)
+            logdir = os.environ.get('VERIF_SELFTEST_LOGDIR', '/tmp')
+            try:
+                with open(os.path.join(logdir, f'selftest_{sid}.log'), 'w') as f:
+                    f.write(r.stdout + r.stderr)
+            except OSError:
+                pass
             caught = r.returncode == 1 and 'VIOLATION property=' in r.stdout
             line = [l for l in r.stdout.splitlines() if l.startswith('VIOLATION')][:1]
             print(f'{sid}: check {pid} exit={r.returncode} {"CAUGHT" if caught else "NOT CAUGHT"} {line[0] if line else ""}', flush=True)
